@@ -85,7 +85,11 @@ def r16a(ctx):
     incs = [a for a in ast.walk(arm) if isinstance(a, ast.AugAssign) and isinstance(a.target, ast.Name)]
     body_incs = [a for s_ in arm.body for a in ast.walk(s_) if isinstance(a, ast.AugAssign)]
     else_incs = [a for s_ in arm.orelse for a in ast.walk(s_) if isinstance(a, ast.AugAssign)]
-    ok = len(body_incs) == 1 and ast.unparse(body_incs[0].value).replace(" ", "").startswith("len(cpattern.findall(") and isinstance(body_incs[0].op, ast.Add)
+    from ..paths import canon
+    cv = canon(f, body_incs[0].value).replace(" ", "") if len(body_incs) == 1 else ""
+    # len(<compiled pattern>.findall(<this text node>)) — the compiled pattern is whatever local holds re.compile(pattern)
+    ok = len(body_incs) == 1 and cv.startswith("len(re.compile(pattern).findall(") and isinstance(body_incs[0].op, ast.Add) \
+        and loop is not None and isinstance(loop.target, ast.Name) and any(isinstance(x, ast.Name) and x.id == loop.target.id for x in ast.walk(body_incs[0].value))
     ctx.instance("R16a", f"{f.file}:{f.ident}", "count arm adds len(cpattern.findall(text))", ok=ok, nontrivial=True)
     if not ok:
         ctx.report("R16a", f, arm, "count arm", "the count-only arm does not add the number of non-overlapping matches of each text node")
